@@ -546,6 +546,21 @@ def rand_msgs(rng, sizes, n):
         msgs.append((kind, payload))
     return msgs
 
+def midsize_partial_cases(prefix, k, sizes=(5000, 20000), wbss=(0, 131072)):
+    """round j: a 4-20 KiB message of which the transport takes a mid-range part (>= 4096, more than the rest) and then
+    refuses; the next operation is another write. Returns case lines (writer side only)."""
+    out = []
+    for role in 'sc':
+        for n1 in sizes:
+            flen = gen_e2.frame_size(role, n1)
+            p1 = bytes((i * 7 + 3) & 255 for i in range(n1))
+            for acc in sorted({4096, 4097, (2 * flen) // 3, flen - 1}):
+                if not (0 < acc < flen): continue
+                for wbs in wbss:
+                    ops = ['wb:' + ws.hx(p1)] + (['f'] if wbs > flen else []) + ['wt:6869', 'wb:' + ws.hx(bytes(range(50))), 'f', 'f', 'f']
+                    out.append(ws.scase_line('%s%d' % (prefix, k + len(out)), role, ops, [], ['a:%d' % acc, 'e:wb'], [], wbs=wbs))
+    return out
+
 class C01(E2Prop):
     id = 'C01'
     rule = ('writer: message lists (text/binary/ping/pong, payload sizes at 0,125/126,65535/65536 and above the read buffer) x write_buffer_size x accept patterns, wire compared byte-exactly with an '
@@ -591,6 +606,7 @@ class C01(E2Prop):
             for n_ in ((2**18 + 1,) if tier == 'quick' else (2**18, 2**18 + 1, 2**20 + 3)):
                 for wr in (['e:wb'], ['a:10', 'e:wb'], []):
                     out.append(ws.scase_line('g%d' % k, role, ['wb:' + ws.hx(bytes((i * 13) & 255 for i in range(n_))), 'f', 'f', 'wt:6869', 'f'], [], wr, [], wbs=rng.choice([0, 131072]), seed=7)); k += 1
+        ms = midsize_partial_cases('mp', k); out += ms; k += len(ms)
         return reid(self.corpus() + out)
     def monitor(self, case_line, trace, mline):
         case, ots = self.parse(case_line, trace)
@@ -674,6 +690,7 @@ class C09(E2Prop):
                 if n >= 2:
                     out.append(ws.scase_line('a%d' % k, role, ['r', 'r', 'f', 'f'], ['d:' + ws.hx(pf(8, gen_e2.close_payload(1000, b'r' * (n - 2))))], [], [])); k += 1
                     out.append(ws.scase_line('a%d' % k, role, ['r', 'r', 'f', 'f'], ['d:' + ws.hx(pf(8, gen_e2.close_payload(1005, b'r' * (n - 2))))], [], [])); k += 1
+        ms = midsize_partial_cases('mp', k); out += ms; k += len(ms)
         return reid(self.corpus() + out)
     def monitor(self, case_line, trace, mline):
         case, ots = self.parse(case_line, trace)
